@@ -27,20 +27,26 @@ def float_resize_traces(rng, count, steps=14):
     representable; the IEEE value of ceil(duration/dt) is passed to the spec as oracle input."""
     traces = []
     tick = 0.001
-    dts = [1000, 500, 1300, 100, 300, 700, 1100, 250, 2000]
+    S = lambda k: round(k * tick, 6)          # the float a user would write (0.7, 2.1, ...), not k * 0.001
+    dts = [1000, 500, 1300, 100, 300, 700, 1100, 250, 2000, 600, 1900]
+    # (dt, multiple) pairs whose IEEE quotient is NOT the exact integer (e.g. 2.1 / 0.7 = 3.0000000000000004)
+    fuzzy = [(d, q) for d in dts for q in range(1, 8) if math.ceil(S(d * q) / S(d)) != q]
     for _ in range(count):
         dtk = rng.choice(dts)
         q = rng.randint(0, 6)
         durk = dtk * q if rng.random() < 0.7 else rng.randint(0, 6 * dtk)
+        if fuzzy and rng.random() < 0.3:
+            dtk, q = rng.choice(fuzzy)
+            durk = dtk * q
         incl = rng.random() < 0.4
         kind = rng.choice(["ready", "ready", "none", "empty", "uninit"])
         param = kind != "none" and rng.random() < 0.4
         E = rng.choice([1, 2, 3])
         hdr = {"kind": kind, "dty": rng.choice(["f", "i"]), "dtk": dtk, "durk": durk, "incl": incl, "shape": [E],
-               "param": param, "tick": tick, "dt_s": dtk * tick, "dur_s": durk * tick, "track_temporal": True}
+               "param": param, "tick": tick, "dt_s": S(dtk), "dur_s": S(durk), "track_temporal": True}
         impl = RecordImpl(hdr)
         init = impl.project()
-        nq0 = math.ceil((durk * tick) / (dtk * tick))
+        nq0 = math.ceil(S(durk) / S(dtk))
         if init["n"] != max(nq0 + int(incl), 1):
             # constructor disagrees with the documented formula evaluated on the same floats
             traces.append({"hdr": {"init": dict(init, n=max(nq0 + int(incl), 1)), "cfg": hdr, "waive": []},
@@ -57,13 +63,20 @@ def float_resize_traces(rng, count, steps=14):
                 o = {"a": "push", "v": v, "d": d, "inpl": rng.random() < 0.5}
             elif r < 0.65:
                 x = rng.choice(dts)
-                o = {"a": "set_dt", "x": x, "x_s": x * tick}
-                o["nq"] = math.ceil(impl.rec.duration / (x * tick))
+                cand = [d for d, q in fuzzy if d * q == st["durk"]]
+                if cand and rng.random() < 0.6:
+                    x = rng.choice(cand)          # reach a fuzzy quotient through the dt setter
+                o = {"a": "set_dt", "x": x, "x_s": S(x)}
+                o["nq"] = math.ceil(impl.rec.duration / S(x))
             elif r < 0.88:
                 cur = st["dtk"]
                 x = cur * rng.randint(0, 6) if rng.random() < 0.7 else rng.randint(0, 6 * cur)
-                o = {"a": "set_duration", "x": x, "x_s": x * tick}
-                o["nq"] = math.ceil((x * tick) / impl.rec.dt)
+                cand = [d * q for d, q in fuzzy if d == cur]
+                if rng.random() < 0.4:
+                    # a duration that is a fuzzy multiple of the current dt, or of a dt set later
+                    x = rng.choice(cand) if cand and rng.random() < 0.5 else (lambda p: p[0] * p[1])(rng.choice(fuzzy))
+                o = {"a": "set_duration", "x": x, "x_s": S(x)}
+                o["nq"] = math.ceil(S(x) / impl.rec.dt)
             else:
                 o = {"a": "set_inclusive", "x": rng.random() < 0.5}
                 o["nq"] = math.ceil(impl.rec.duration / impl.rec.dt)
